@@ -33,8 +33,10 @@ HEADER_SV = """From Coq Require Import ZArith List Bool.
 Import ListNotations.
 From EV Require Import Model.SvBase Model.SvHam Model.SvGrad.
 Open Scope Z_scope."""
-FD_RTOL = 1e-5      # relative to the largest gradient entry of the block (float64, krylov tolerance 1e-10)
-FD_ATOL = 2e-8      # central differences with step 1e-5..1e-6 on O(1) losses: truncation+rounding ~1e-10
+REF_RTOL = 1e-5     # backend autograd (krylov tolerance 1e-10) vs autograd through the dense reference, relative to
+REF_ATOL = 1e-8     # the largest gradient entry of the block (floored at 1e-3); observed deviations are <= 5e-9 relative
+FD_RTOL = 1e-4      # central differences (step 1e-4, forward at krylov tolerance 1e-13) are the coarse cross-check:
+FD_ATOL = 1e-7      # (observed <= 2e-8 relative); a difference quotient amplifies the forward's tolerance-level error by 1/step
 
 
 def L(v):
@@ -422,8 +424,70 @@ def gen_sv_spec(rng, n, steps, loss, phimode):
             "weights": [rng.uniform(-1, 1) for _ in range(n + 2 * D_)]}
 
 
-def sv_grad_check(ctx, spec, max_fd=14):
-    """autograd vs central differences; returns a small summary dict."""
+def dense_ref_loss(spec, tens):
+    """Independent reference: the same piecewise-constant evolution with torch.linalg.matrix_exp of the dense
+    Hamiltonian (float64, ordinary autograd; documented convention, shares no code with /repo) and the same loss."""
+    import torch
+
+    n, c = spec["n"], torch.complex128
+    sx = torch.tensor([[0, 1], [1, 0]], dtype=c)
+    sy = torch.tensor([[0, -1j], [1j, 0]], dtype=c)
+    nn = torch.tensor([[0, 0], [0, 1]], dtype=c)
+    eye = torch.eye(2, dtype=c)
+
+    def emb(ops):
+        out = torch.ones(1, 1, dtype=c)
+        for q in range(n):
+            out = torch.kron(out, ops.get(q, eye))
+        return out
+
+    SX, SY, NN = [emb({j: sx}) for j in range(n)], [emb({j: sy}) for j in range(n)], [emb({j: nn}) for j in range(n)]
+    NN2 = {(i, j): NN[i] @ NN[j] for i in range(n) for j in range(i + 1, n)}
+
+    def ham(s):
+        H = torch.zeros(2 ** n, 2 ** n, dtype=c)
+        for j in range(n):
+            H = H + 0.5 * tens["omega"][s, j] * (torch.cos(tens["phi"][s, j]) * SX[j] + torch.sin(tens["phi"][s, j]) * SY[j])
+            H = H - tens["delta"][s, j] * NN[j]
+        for (i, j), m in NN2.items():
+            H = H + tens["U"][i, j] * m
+        return H
+
+    if "psi0" in tens:
+        psi = tens["psi0"].to(c)
+    else:
+        psi = torch.zeros(2 ** n, dtype=c)
+        psi[0] = 1.0
+    times, states, H = spec["times"], [], None
+    for s in range(spec["steps"]):
+        H = ham(s)
+        psi = torch.linalg.matrix_exp(-1j * (times[s + 1] - times[s]) * 1e-3 * H) @ psi
+        states.append(psi)
+    wv = torch.tensor(spec["weights"], dtype=torch.float64)
+
+    def occ(p):
+        pr = (p.conj() * p).real
+        return torch.stack([(NN[j].diagonal().real * pr).sum() for j in range(n)])
+
+    if spec["loss"] in ("occupation", "occupation-mid"):
+        idx = [spec["steps"]]
+        if spec["loss"] == "occupation-mid":
+            idx = sorted({max(1, spec["steps"] // 2), spec["steps"]})
+        return sum((occ(states[m - 1]) * wv[:n]).sum() * (k + 1) for k, m in enumerate(idx))
+    if spec["loss"] == "energy":  # the backend evaluates the Hamiltonian of the last step
+        return torch.vdot(psi, H @ psi).real
+    D = psi.numel()
+    a, b = wv[n:n + D], wv[n + D:n + 2 * D]
+    if spec["loss"] == "state":
+        return (psi.real * a).sum() + (psi.imag * b).sum()
+    target = torch.complex(a, b)
+    target = target / target.norm()
+    return torch.abs(torch.vdot(target, psi)) ** 2
+
+
+def sv_grad_check(ctx, spec, max_fd=6):
+    """torch.autograd through the real backend against (1) autograd through the independent dense reference, every
+    entry of every block, and (2) central differences of the emulated result on a few entries."""
     import torch
 
     rng = ctx.rng
@@ -433,13 +497,15 @@ def sv_grad_check(ctx, spec, max_fd=14):
     names = list(tens)
     summary = {"loss": spec["loss"], "n": spec["n"], "steps": spec["steps"], "phimode": spec["phimode"],
                "psi0": spec["psi0"] is not None}
-    key_prefix = ENERGY if spec["loss"] == "energy" else "sv-gradient"
+    energy = spec["loss"] == "energy"
     try:
         leaves = dict(tens)
         loss = sv_loss(spec, tens, leaves)
         grads = torch.autograd.grad(loss, [leaves[k] for k in names], allow_unused=True)
     except Exception as ex:  # noqa: BLE001
-        key = key_prefix + ("" if spec["loss"] == "energy" else "-raises")
+        key = "sv-gradient-raises"
+        if energy and isinstance(ex, TypeError) and "argument 'alpha' must be Number" in str(ex):
+            key = ENERGY  # part (c) of the known finding, nothing else
         if spec["loss"] == "occupation-mid" and "modified by an inplace operation" in str(ex):
             key = INPLACE
         ctx.violation(f"differentiating the {spec['loss']} loss of a noiseless emu-sv run raised "
@@ -451,52 +517,92 @@ def sv_grad_check(ctx, spec, max_fd=14):
     for k, g in grads.items():
         if not bool(torch.isfinite(torch.view_as_real(g) if g.is_complex() else g).all()):
             ctx.violation(f"gradient of the {spec['loss']} loss w.r.t. {k} is not finite",
-                          {"case": spec, "finding_key": key_prefix + "-not-finite", "kind": "sv"})
+                          {"case": spec, "finding_key": "sv-gradient-not-finite", "kind": "sv"})
             summary["outcome"] = "not-finite"
             return summary
-    # entries to probe: a random subset per block, always including the last step (explicit H dependence)
+    # (1) dense autograd reference: exact derivative of the exact evolution
+    rt = _problem_tensors(spec)
+    for t in rt.values():
+        t.requires_grad_(True)
+    rloss = dense_ref_loss(spec, rt)
+    rgr = torch.autograd.grad(rloss, [rt[k] for k in names], allow_unused=True)
+    rgr = {k: (g if g is not None else torch.zeros_like(rt[k])) for k, g in zip(names, rgr)}
+    summary["forward_vs_dense"] = abs(float(loss) - float(rloss))
     worst = 0.0
+    if energy and spec["phimode"] == "zero" and spec["steps"] >= 2:
+        # nothing may hide behind the known energy finding: with all phases zero its only effect is the missing
+        # explicit term <psi|dH/dtheta|psi> of the LAST step (and of U); the rows of the earlier steps must agree
+        for k in ("omega", "delta", "phi"):
+            gscale = max(1e-3, float(rgr[k].abs().max()))
+            diff = (grads[k][:-1] - rgr[k][:-1]).abs()
+            if float(diff.max()) > REF_RTOL * gscale + REF_ATOL:
+                ix = tuple(torch.nonzero(diff == diff.max())[0].tolist())
+                ctx.violation(f"gradient of the energy loss w.r.t. {k}{list(ix)} (not the last step) is "
+                              f"{complex(grads[k][ix])!r} but the dense reference gives {complex(rgr[k][ix])!r} "
+                              f"(n={spec['n']}, steps={spec['steps']}, phases zero)",
+                              {"case": spec, "finding_key": "sv-gradient-wrong", "kind": "sv",
+                               "entry": [k, list(ix)], "oracle": "dense autograd"})
+                summary["outcome"] = "mismatch"
+                return summary
+    for k in names:
+        gscale = max(1e-3, float(rgr[k].abs().max()))
+        diff = (grads[k] - rgr[k]).abs()
+        err = float(diff.max())
+        worst = max(worst, err / gscale)
+        if err > REF_RTOL * gscale + REF_ATOL:
+            ix = tuple(torch.nonzero(diff == diff.max())[0].tolist())
+            ctx.violation(f"gradient of the {spec['loss']} loss w.r.t. {k}{list(ix)} is {complex(grads[k][ix])!r} but "
+                          f"autograd through the dense reference evolution gives {complex(rgr[k][ix])!r} "
+                          f"(n={spec['n']}, steps={spec['steps']}, phases {spec['phimode']}, block scale {gscale:.3g})",
+                          {"case": spec, "finding_key": ENERGY if energy else "sv-gradient-wrong", "kind": "sv",
+                           "entry": [k, list(ix)], "oracle": "dense autograd"})
+            summary["outcome"] = "mismatch"
+            summary["worst_rel"] = worst
+            return summary
+    summary["worst_rel"] = worst
+    # (2) central differences of the emulated result itself (forward at krylov tolerance 1e-13: the forward is only
+    # defined up to its tolerance, and tolerance / step is what a difference quotient amplifies)
+    fspec = dict(spec, krylov_tolerance=1e-13)
+    worst_fd = 0.0
     with torch.no_grad():
         base = {k: v.detach().clone() for k, v in tens.items()}
+        entries = []
         for k in names:
             idxs = [tuple(ix) for ix in torch.nonzero(torch.ones(base[k].shape)).tolist()]
             if k == "U":
-                idxs = [ix for ix in idxs if ix[0] != ix[1]]
-            rng.shuffle(idxs)
-            pick = idxs[:max(2, max_fd // len(names))]
-            if k in ("omega", "delta", "phi"):
-                pick.append((spec["steps"] - 1, rng.randrange(spec["n"])))
+                idxs = [ix for ix in idxs if ix[0] < ix[1]]
+            if idxs:
+                entries.append((k, rng.choice(idxs)))
+        rng.shuffle(entries)
+        for k, ix in entries[:max_fd]:
             gscale = max(1e-3, float(grads[k].abs().max()))
-            for ix in pick:
-                parts = (("re", 1.0), ("im", 1.0j)) if base[k].is_complex() else (("re", 1.0),)
-                for pname, unit in parts:
-                    eps = 1e-6 * max(1.0, float(base[k].abs().max()))
-                    vals = []
-                    for sgn in (+1, -1):
-                        tt = {m: v.clone() for m, v in base.items()}
-                        tt[k][ix] = tt[k][ix] + sgn * eps * unit
-                        vals.append(float(sv_loss(spec, tt)))
-                    fd = (vals[0] - vals[1]) / (2 * eps)
-                    g = grads[k][ix]
-                    ad = float(g.real if pname == "re" else g.imag) if g.is_complex() else float(g)
-                    err = abs(fd - ad)
-                    worst = max(worst, err / gscale)
-                    if err > FD_RTOL * gscale + FD_ATOL:
-                        ctx.violation(f"gradient of the {spec['loss']} loss w.r.t. {k}{list(ix)} ({pname}) is {ad!r} "
-                                      f"but the central difference is {fd!r} (n={spec['n']}, steps={spec['steps']}, "
-                                      f"phases {spec['phimode']}, block scale {gscale:.3g})",
-                                      {"case": spec, "finding_key": key_prefix + ("" if spec["loss"] == "energy" else "-wrong"),
-                                       "kind": "sv", "entry": [k, list(ix), pname], "ad": ad, "fd": fd})
-                        summary["outcome"] = "mismatch"
-                        summary["worst_rel"] = worst
-                        return summary
+            eps = 1e-4 * max(1.0, float(base[k].abs().max()))
+            vals = []
+            for sgn in (+1, -1):
+                tt = {m: v.clone() for m, v in base.items()}
+                tt[k][ix] = tt[k][ix] + sgn * eps
+                vals.append(float(sv_loss(fspec, tt)))
+            fd = (vals[0] - vals[1]) / (2 * eps)
+            g = grads[k][ix]
+            ad = float(g.real) if g.is_complex() else float(g)
+            err = abs(fd - ad)
+            worst_fd = max(worst_fd, err / gscale)
+            if err > FD_RTOL * gscale + FD_ATOL:
+                ctx.violation(f"gradient of the {spec['loss']} loss w.r.t. {k}{list(ix)} is {ad!r} but the central "
+                              f"difference of the emulated result is {fd!r} (n={spec['n']}, steps={spec['steps']}, "
+                              f"phases {spec['phimode']}, block scale {gscale:.3g})",
+                              {"case": spec, "finding_key": ENERGY if energy else "sv-gradient-wrong", "kind": "sv",
+                               "entry": [k, list(ix)], "ad": ad, "fd": fd, "oracle": "central difference"})
+                summary["outcome"] = "mismatch"
+                summary["worst_fd_rel"] = worst_fd
+                return summary
     summary["outcome"] = "ok"
-    summary["worst_rel"] = worst
+    summary["worst_fd_rel"] = worst_fd
     return summary
 
 
 # ---- real Pulser sequences with torch-parametrised waveforms --------------------------------------------------
-def seq_loss(spec, params):
+def seq_loss(spec, params, krylov_tolerance=1e-10):
     import torch
     from pulser import Pulse, Register, Sequence
     from pulser.devices import MockDevice
@@ -523,7 +629,7 @@ def seq_loss(spec, params):
         amp = wf(seg["amp"])
         det = wf(seg["det"])
         seq.add(Pulse(amp, det, float(seg["phase"])), "ch")
-    cfg = SVConfig(dt=spec["dt"], gpu=False, log_level=logging.ERROR, krylov_tolerance=1e-10,
+    cfg = SVConfig(dt=spec["dt"], gpu=False, log_level=logging.ERROR, krylov_tolerance=krylov_tolerance,
                    observables=[Occupation(evaluation_times=[1.0])])
     res = SVBackend(seq, config=cfg).run()
     wv = torch.tensor(spec["weights"][:n], dtype=torch.float64)
@@ -573,14 +679,16 @@ def seq_grad_check(ctx, spec):
     gscale = max(1e-3, max(abs(a) for a in g))
     with torch.no_grad():
         for k in range(len(params)):
-            eps = 1e-5
+            eps = 1e-4
             vals = []
             for sgn in (+1, -1):
                 pp = [torch.tensor(v + (sgn * eps if m == k else 0.0), dtype=torch.float64)
                       for m, v in enumerate(spec["params"])]
-                vals.append(float(seq_loss(spec, pp)))
+                # forward at krylov tolerance 1e-13: a difference quotient amplifies tolerance-level errors by 1/eps
+                vals.append(float(seq_loss(spec, pp, krylov_tolerance=1e-13)))
             fd = (vals[0] - vals[1]) / (2 * eps)
-            if abs(fd - g[k]) > 1e-4 * gscale + 1e-7:  # the sample grid makes the loss less smooth: looser
+            summary["worst_fd_rel"] = max(summary.get("worst_fd_rel", 0.0), abs(fd - g[k]) / gscale)
+            if abs(fd - g[k]) > FD_RTOL * gscale + FD_ATOL:
                 ctx.violation(f"gradient w.r.t. waveform parameter {k} is {g[k]!r} but the central difference is {fd!r}",
                               {"case": spec, "finding_key": "seq-gradient-wrong", "kind": "seq", "param": k})
                 summary["outcome"] = "mismatch"
@@ -729,25 +837,33 @@ def run(ctx):
     sv_summ = []
     plan = []
     for n in range(1, 7):
-        reps = ctx.n(1, 6) if n <= 4 else ctx.n(1, 2)
+        reps = ctx.n(2, 14) if n <= 4 else ctx.n(1, 5)
         for r in range(reps):
             for loss in ("occupation", "occupation-mid", "state", "fidelity"):
                 plan.append((n, loss, ("zero", "nonzero", "mixed")[(r + n + len(plan)) % 3]))
     rng.shuffle(plan)
-    plan = plan[:ctx.n(14, 90)]
+    plan = plan[:ctx.n(32, 300)]
     plan += [(2, "energy", "zero"), (2, "energy", "nonzero")] + ([(3, "energy", "mixed")] if th else [])
     for n, loss, phimode in plan:
         spec = gen_sv_spec(rng, n, rng.choice([2, 3, 4] if n <= 4 else [2, 3]), loss, phimode)
-        s = sv_grad_check(ctx, spec, max_fd=ctx.n(8, 16) if n <= 4 else 6)
-        sv_summ.append(s)
-        ctx.count_case({"kind": "sv", **s}, nontrivial=n >= 2)
-    ctx.extra["sv_fd_runs"] = {"runs": len(sv_summ),
-                               "worst_relative_error_ok_runs": max([s.get("worst_rel", 0.0) for s in sv_summ
-                                                                    if s.get("outcome") == "ok"] + [0.0]),
+        todo = [spec]
+        if loss == "energy":  # the same run with a loss the known finding does not touch
+            todo.append(dict(spec, loss="fidelity"))
+        for sp in todo:
+            s = sv_grad_check(ctx, sp, max_fd=ctx.n(4, 6) if n <= 4 else 3)
+            sv_summ.append(s)
+            ctx.count_case({"kind": "sv", **s}, nontrivial=n >= 2)
+    ctx.extra["sv_gradient_runs"] = {"runs": len(sv_summ),
+                               "worst_relative_deviation_from_dense_autograd(ok runs)":
+                                   max([s.get("worst_rel", 0.0) for s in sv_summ if s.get("outcome") == "ok"] + [0.0]),
+                               "worst_relative_deviation_from_central_differences(ok runs)":
+                                   max([s.get("worst_fd_rel", 0.0) for s in sv_summ if s.get("outcome") == "ok"] + [0.0]),
+                               "worst_forward_deviation_from_dense":
+                                   max([s.get("forward_vs_dense", 0.0) for s in sv_summ] + [0.0]),
                                "outcomes": {o: sum(1 for s in sv_summ if s.get("outcome") == o)
                                             for o in sorted({s.get("outcome") for s in sv_summ})}}
     seq_summ = []
-    for _ in range(ctx.n(3, 20)):
+    for _ in range(ctx.n(5, 40)):
         spec = gen_seq_spec(rng)
         s = seq_grad_check(ctx, spec)
         seq_summ.append(s)
@@ -769,8 +885,13 @@ def run(ctx):
                          "torch's VJP formulas for add/sub/mul/div/where as transcribed in Model/PchipAD.v (validated by "
                          "the nan/inf-exact comparison with torch.autograd.grad)",
                          "exactness of float64 + - * on small Gaussian integers (DHD tie)"]
-    ctx.assumptions += ["accuracy of the Frechet derivative / double Krylov decomposition is NOT proved: validated by "
-                        "central differences (relative tolerance 1e-5 of the block's largest gradient entry + 2e-8)",
+    ctx.assumptions += ["accuracy of the Frechet derivative / double Krylov decomposition is NOT proved: validated against "
+                        "autograd through an independent dense matrix_exp evolution, every entry of every block (1e-5 of "
+                        "the block's largest entry + 1e-8; observed <= 5e-9), and against central differences of the "
+                        "emulated result (step 1e-4, forward at krylov tolerance 1e-13; 1e-4 relative + 1e-7). A "
+                        "difference quotient of a forward run at tolerance 1e-10 can deviate by ~2e-4 relative although "
+                        "the gradient equals the dense reference to 1e-16 (the forward is only defined up to its "
+                        "tolerance): not a gradient error",
                         "PCHIP theorems are in real arithmetic with an explicit division-by-zero error; binary64 "
                         "overflow/underflow is outside (generated data is moderate)",
                         "PCHIP1D is only piecewise smooth in y: finite differences are compared along directions that keep "
